@@ -427,6 +427,45 @@ impl Pcap {
         Self::new_with_magic(file, PCAP_MAGIC_US)
     }
 
+    /// Write the global header of another pcap (e.g. the input stream) to a
+    /// newly created pcap file or stream, so that the output describes its
+    /// packets the way the input did (snaplen, link type, version, zone).
+    pub fn new_like(file: Rc<FileHandle>, other: &Pcap) -> io::Result<Self> {
+        let global_header = {
+            let h = other.header.borrow();
+            PcapGlobalHeader {
+                magic_number: h.magic_number,
+                version_major: h.version_major,
+                version_minor: h.version_minor,
+                thiszone: h.thiszone,
+                sigfigs: h.sigfigs,
+                snaplen: h.snaplen,
+                linktype: h.linktype,
+            }
+        };
+        let bytes: Vec<u8> = (&global_header).into();
+        match file.as_ref() {
+            FileHandle::Writer(writer) => {
+                writer.borrow_mut().write_all(&bytes)?;
+            }
+            FileHandle::Stdout => {
+                io::stdout().write_all(&bytes)?;
+            }
+            _ => {
+                return Err(io::Error::new(
+                    io::ErrorKind::InvalidData,
+                    "Invalid file handle",
+                ))
+            }
+        }
+        Ok(Self {
+            file,
+            header: RefCell::new(global_header),
+            ts_format: PcapTsFormat::MicroSeconds,
+            damaged: std::cell::Cell::new(false),
+        })
+    }
+
     /// Read next packet from a pcap file
     pub fn next_packet(&self) -> io::Result<Rc<PcapPacket>> {
         let mut packet_header_data = [0u8; 16]; // Size of pcap packet header
